@@ -52,7 +52,7 @@ func (w *World) isEntryPoint(fn *ssa.Function) bool {
 
 func ruleC08R1(w *World, r *Report) {
 	const rule = "C08/R1"
-	r.rule(rule, "at every call site of a function that consumes tokens, the kind state of the current token (from the guards on the path) overlaps the tokens under which the callee can return normally with error recovery switched off; otherwise the call can only raise and the branch is a dead production", 800)
+	r.rule(rule, "at every call site of a function that consumes tokens, the kind state of the current token (from the guards on the path) overlaps the tokens under which the callee can return normally with error recovery switched off; otherwise the call can only raise and the branch is a dead production", 400)
 	tk := w.TKAI()
 	if miss := tk.anchorsOK(); len(miss) > 0 {
 		r.errorf("TKAI anchors missing: %v", miss)
@@ -150,7 +150,7 @@ func (w *World) lexerKinds() map[string]bool {
 
 func ruleC08R2(w *World, r *Report) {
 	const rule = "C08/R2"
-	r.rule(rule, "every constant compared with Token.Kind / passed to expect is producible by the lexer; every constant passed to IsKeywordLike/expectKeywordLike/IsIdent/expectIdent is identifier-shaped and not a reserved keyword (the lexer would deliver it as its own kind and the test could never succeed)", 600)
+	r.rule(rule, "every constant compared with Token.Kind / passed to expect is producible by the lexer; every constant passed to IsKeywordLike/expectKeywordLike/IsIdent/expectIdent is identifier-shaped and not a reserved keyword (the lexer would deliver it as its own kind and the test could never succeed)", 300)
 	tk := w.TKAI()
 	kinds := w.lexerKinds()
 	reserved := map[string]bool{}
@@ -245,7 +245,7 @@ func (tk *TKAI) cleanFirst(fn *ssa.Function) KSet {
 
 func ruleC08R3(w *World, r *Report) {
 	const rule = "C08/R3"
-	r.rule(rule, "dispatch agreement: every first token under which a statement-level production (parseDDL, parseDMLInternal, the query path, CALL) can succeed is routed to it by parseStatementInternal; ParseDDL/ParseDML/ParseQuery reach the same internal productions as ParseStatement", 6)
+	r.rule(rule, "dispatch agreement: every first token under which a statement-level production (parseDDL, parseDMLInternal, the query path, CALL) can succeed is routed to it by parseStatementInternal; ParseDDL/ParseDML/ParseQuery reach the same internal productions as ParseStatement", 3)
 	tk := w.TKAI()
 	psi := w.fn(w.Mem, "(*Parser).parseStatementInternal")
 	if psi == nil {
@@ -442,7 +442,7 @@ func ruleC08R4(w *World, r *Report) {
 // ruleC08R5: a token kind a production can start with is not rejected by the dispatch in front of it.
 func ruleC08R5(w *World, r *Report) {
 	const rule = "C08/R5"
-	r.rule(rule, "no part of the grammar is cut off by a dispatching guard: when a token-consuming function can start with a token kind k (the kinds of the first token consumed on its normal returns, error recovery off) that none of its call sites admits, then at each such call site the caller, re-run from the block where k is still possible with the current token set to k, still reaches a normal return (k is taken by another alternative); if k can only raise there, the alternative of the callee that starts with k has become unreachable", 150)
+	r.rule(rule, "no part of the grammar is cut off by a dispatching guard: when a token-consuming function can start with a token kind k (the kinds of the first token consumed on its normal returns, error recovery off) that none of its call sites admits, then at each such call site the caller, re-run from the block where k is still possible with the current token set to k, still reaches a normal return (k is taken by another alternative); if k can only raise there, the alternative of the callee that starts with k has become unreachable", 75)
 	tk := w.TKAI()
 	if miss := tk.anchorsOK(); len(miss) > 0 {
 		r.errorf("TKAI anchors missing: %v", miss)
@@ -584,7 +584,7 @@ func ruleC08R5(w *World, r *Report) {
 // it leaves through the enclosing production and the alternative the caller would have taken next is never tried.
 func ruleC08R6(w *World, r *Report) {
 	const rule = "C08/R6"
-	r.rule(rule, "look-ahead functions (deferred unconditional rewind of Parser.Lexer to a clone taken at entry) cannot raise: under the token kinds admitted by their call sites, no raise point of the function or of anything it calls (in the callee's own token context, error recovery off) is reachable", 5)
+	r.rule(rule, "look-ahead functions (deferred unconditional rewind of Parser.Lexer to a clone taken at entry) cannot raise: under the token kinds admitted by their call sites, no raise point of the function or of anything it calls (in the callee's own token context, error recovery off) is reachable", 3)
 	tk := w.TKAI()
 	if miss := tk.anchorsOK(); len(miss) > 0 {
 		r.errorf("TKAI anchors missing: %v", miss)
